@@ -728,6 +728,19 @@ func (f *cacheFacts) checkInit(fns map[string]*ast.FuncDecl, all []*ast.FuncDecl
 			f.initFlagStoreLast = false
 			f.note("initHandle2: last statement is not atomic.StoreUint32(&x.inited, 1)")
 		}
+		// the flag is written exactly once in initHandle2 (by that last statement)
+		nst := 0
+		ast.Inspect(ih2.Body, func(nd ast.Node) bool {
+			if c, ok := nd.(*ast.CallExpr); ok && strings.HasPrefix(cacheCallName(c), "atomic.") && !strings.HasPrefix(cacheCallName(c), "atomic.Load") &&
+				len(c.Args) > 0 && strings.HasSuffix(cacheExprStr(c.Args[0]), ".inited") {
+				nst++
+			}
+			return true
+		})
+		if nst != 1 {
+			f.initFlagStoreLast = false
+			f.note("initHandle2: the inited flag is written %d times", nst)
+		}
 		// no other Lock in initHandle2 (no nesting under handleInitMu)
 		n := 0
 		ast.Inspect(ih2.Body, func(nd ast.Node) bool {
